@@ -19,9 +19,21 @@ def runFw (cases : List CaseBlock) : IO Unit := do
     match parseFwCase c with
     | .error e => IO.println s!"case {c.id} {c.kind} PARSE {e}"
     | .ok p =>
-      let (model, starved) := modelRun p (Validate.frameworkNew p.trace.machines p.trace.fp p.trace.fb)
-      let ds := diffTrace p.trace model
-      let ds := if starved then ds ++ [(0, ["oracle"])] else ds
+      -- a panic inside a dependency (class `ext:…`, e.g. a rand_distr sampler) leaves the oracle
+      -- without a value for that draw: the comparison ends before that call; the monitors below
+      -- still see the whole trace (C01 reports the panic)
+      let isExt : CallRec → Bool := fun c => match c.res with
+        | .panic cls => cls.startsWith "ext:"
+        | _ => false
+      let nKeep := (p.trace.calls.takeWhile (fun c => !isExt c)).length
+      let pc : FwCaseParsed := { p with trace := { p.trace with calls := p.trace.calls.take nKeep },
+                                        orcCalls := p.orcCalls.take nKeep }
+      let (model, starved) := modelRun pc (Validate.frameworkNew p.trace.machines p.trace.fp p.trace.fb)
+      let newExt := match p.trace.newRes with
+        | .panic cls => cls.startsWith "ext:"
+        | _ => false
+      let ds := if newExt then [] else diffTrace pc.trace model
+      let ds := if starved && !newExt then ds ++ [(0, ["oracle"])] else ds
       if ds.isEmpty then
         IO.println s!"case {c.id} {c.kind} ok calls={p.trace.calls.length}"
       else
